@@ -504,6 +504,14 @@ pub fn menu(st: &GenState, prog: &Program, cfg: &GenCfg) -> Vec<Step> {
             if !key_named("s") {
                 m.push(Step::Group { keys: ks.clone(), inner: vec![Step::Aggregate(vec![("s".into(), Agg::Sum, Some(other))])] });
             }
+            // a group whose pipeline *ends* in a sort, behind another transform: the frame is keys ++ inner frame
+            if (core || naming) && ks.len() == 1 {
+                m.push(Step::Group { keys: ks.clone(), inner: vec![Step::Filter(E::bin(Op::Gt, E::Col(other), E::Int(1))), Step::Sort(vec![(true, E::Col(other))])] });
+                if !gf.cols.iter().any(|c| c.name.as_deref() == Some("x")) && !f.cols.iter().any(|c| c.name.as_deref() == Some("x")) {
+                    m.push(Step::Group { keys: ks.clone(), inner: vec![Step::Derive(vec![Item { alias: Some("x".into()), e: plus1(other) }]), Step::Sort(vec![(false, E::Col(other))])] });
+                }
+                m.push(Step::Group { keys: ks.clone(), inner: vec![Step::Sort(vec![(true, E::Col(other))]), Step::Take(Some(1), Some(2)), Step::Sort(vec![(false, E::Col(other))])] });
+            }
             // (naming alphabet) an aggregate that takes the name of the key: both columns are in the frame
             if naming && ks.len() == 1 {
                 if let Some(kn) = f.named(ks[0]) {
